@@ -59,7 +59,11 @@ private:
       control_block = global_thread_block_list.acquire_entry();
       auto epoch = global_epoch.load(std::memory_order_relaxed);
       do {
-        control_block->local_epoch.store(epoch, std::memory_order_relaxed);
+        // The control block may have been used by another thread before. This store must not break the
+        // release sequence of that thread's last quiescent state (3): a thread that reads our value of
+        // local_epoch in try_update_epoch still has to synchronize with everything the previous owner did,
+        // which we have acquired together with the entry -> release.
+        control_block->local_epoch.store(epoch, std::memory_order_release);
 
         // (1) - this acq_rel-CAS synchronizes-with the acquire-load (2)
         //       and the acq_rel-CAS (5)
